@@ -654,6 +654,7 @@ func (p *Parent) finish(start time.Time) int {
 		vs := bySig[sig]
 		nviol += len(vs)
 		if si >= 8 {
+			fmt.Printf("  (also) signature: %s (%d occurrence(s))\n", sig, len(vs))
 			continue
 		}
 		v := vs[0]
@@ -687,6 +688,9 @@ func (p *Parent) finish(start time.Time) int {
 		}
 		if p.Counters["evaluations"] == 0 {
 			p.Inconclusive("no evaluations")
+		}
+		if len(p.Samples) == 0 {
+			p.Inconclusive("no sample case was recorded by the check")
 		}
 	}
 
